@@ -172,6 +172,69 @@ def mdcRead (st : MDCR) (u : Under) (m : Nat) : MDCR × Under × Bytes × MErr :
     let st := { st with hashed := st.hashed ++ out, trailer := all.drop n }
     if r.2.1 then ({ st with eof := true }, r.2.2, out, .eof) else (st, r.2.2, out, .none)
 
+/-! ### progress facts (used for the termination of `Close`'s drain loop) -/
+
+theorem Under.read_split (u : Under) (m : Nat) :
+    (u.read m).1 ++ (u.read m).2.2.data = u.data ∧ (u.read m).1.length ≤ m ∧
+    ((u.read m).2.1 = true ↔ u.data = []) ∧ ((u.read m).2.1 = true → (u.read m).1 = [] ∧ (u.read m).2.2 = u) := by
+  unfold Under.read
+  by_cases hd : u.data.isEmpty
+  · have : u.data = [] := by simpa using hd
+    simp [hd, this]
+  · have hne : u.data ≠ [] := by simpa using hd
+    simp only [hd, Bool.false_eq_true, ↓reduceIte, List.take_append_drop, List.length_take, true_and]
+    refine ⟨?_, by simp [hne], by simp⟩
+    cases u.script with
+    | nil => simp; omega
+    | cons k t => simp; omega
+
+theorem mdcFill_data_le (st : MDCR) (u : Under) : (mdcFill st u).2.1.data.length ≤ u.data.length := by
+  induction hl : mdcTrailerSize - st.trailer.length using Nat.strongRecOn generalizing st u with
+  | _ n ih =>
+    rw [mdcFill]
+    split
+    · rename_i hlt
+      split
+      · split <;> simp
+      · rename_i hE
+        have hpos := Under.read_pos u (mdcTrailerSize - st.trailer.length) (by omega) (by simpa using hE)
+        have hsp := (Under.read_split u (mdcTrailerSize - st.trailer.length)).1
+        have hlen : (u.read (mdcTrailerSize - st.trailer.length)).2.2.data.length ≤ u.data.length := by
+          have := congrArg List.length hsp
+          simp only [List.length_append] at this; omega
+        have := ih (mdcTrailerSize - (st.trailer ++ (u.read (mdcTrailerSize - st.trailer.length)).1).length)
+          (by subst hl; simp only [List.length_append]; omega)
+          { st with trailer := st.trailer ++ (u.read (mdcTrailerSize - st.trailer.length)).1 }
+          (u.read (mdcTrailerSize - st.trailer.length)).2.2 rfl
+        omega
+    · simp
+
+/-- a `Read` with a buffer larger than the trailer that returns no error has taken at least one byte
+    from the underlying reader -/
+theorem mdcRead_progress (st : MDCR) (u : Under) (m : Nat) (hm : mdcTrailerSize < m)
+    (h : (mdcRead st u m).2.2.2 = .none) : (mdcRead st u m).2.1.data.length < u.data.length := by
+  unfold mdcRead at h ⊢
+  by_cases h1 : st.error = true
+  · simp [h1] at h
+  · by_cases h2 : st.eof = true
+    · simp [h1, h2] at h
+    · simp only [h1, h2, Bool.false_eq_true, ↓reduceIte] at h ⊢
+      by_cases h3 : ((mdcFill st u).2.2 != MErr.none) = true
+      · simp only [h3, ↓reduceIte] at h
+        simp [h] at h3
+      · simp only [h3, Bool.false_eq_true, ↓reduceIte] at h ⊢
+        have hm' : ¬ m ≤ mdcTrailerSize := by omega
+        simp only [hm', ↓reduceIte] at h ⊢
+        have hfill := mdcFill_data_le st u
+        by_cases h4 : ((mdcFill st u).2.1.read (m - mdcTrailerSize)).2.1 = true
+        · simp [h4] at h
+        · simp only [h4, Bool.false_eq_true, ↓reduceIte]
+          have hpos := Under.read_pos (mdcFill st u).2.1 (m - mdcTrailerSize) (by omega) (by simpa using h4)
+          have hsp := (Under.read_split (mdcFill st u).2.1 (m - mdcTrailerSize)).1
+          have := congrArg List.length hsp
+          simp only [List.length_append] at this
+          omega
+
 inductive CloseRes where
   | ok | readingError | notFound | mismatch
 deriving DecidableEq, Repr
@@ -182,23 +245,24 @@ def mdcCheck (H : Bytes → Bytes) (pre : Bytes) (st : MDCR) : CloseRes :=
   else if H (pre ++ st.hashed ++ mdcTag) != st.trailer.drop 2 then .mismatch
   else .ok
 
-/-- `Close`: drain with 1024-byte reads until EOF, then check. `fuel` only bounds the number of
-    drain reads; `data.length + 2` always suffices (`mdcDrain_fuel`). -/
-def mdcDrain : Nat → MDCR → Under → MDCR × Under × Bytes × Bool
-  | 0, st, u => (st, u, [], false)
-  | fuel + 1, st, u =>
-    if st.eof then (st, u, [], true) else
-    let r := mdcRead st u 1024
-    match r.2.2.2 with
-    | .ueof => (r.1, r.2.1, r.2.2.1, false)
-    | .eof => (r.1, r.2.1, r.2.2.1, true)
-    | .none =>
-      let q := mdcDrain fuel r.1 r.2.1
-      (q.1, q.2.1, r.2.2.1 ++ q.2.2.1, q.2.2.2)
+/-- `Close`'s loop `for !ser.eof { Read(buf[1024]) … }`: state, underlying reader, bytes drained,
+    and whether EOF (rather than an error) ended it. Well-founded: each error-free 1024-byte Read takes
+    at least one byte from the underlying reader (`mdcRead_progress`). -/
+def mdcDrain (st : MDCR) (u : Under) : MDCR × Under × Bytes × Bool :=
+  if st.eof then (st, u, [], true) else
+  match h : (mdcRead st u 1024).2.2.2 with
+  | .ueof => ((mdcRead st u 1024).1, (mdcRead st u 1024).2.1, (mdcRead st u 1024).2.2.1, false)
+  | .eof => ((mdcRead st u 1024).1, (mdcRead st u 1024).2.1, (mdcRead st u 1024).2.2.1, true)
+  | .none =>
+    have : (mdcRead st u 1024).2.1.data.length < u.data.length :=
+      mdcRead_progress st u 1024 (by decide) h
+    let q := mdcDrain (mdcRead st u 1024).1 (mdcRead st u 1024).2.1
+    (q.1, q.2.1, (mdcRead st u 1024).2.2.1 ++ q.2.2.1, q.2.2.2)
+termination_by u.data.length
 
 def mdcClose (H : Bytes → Bytes) (pre : Bytes) (st : MDCR) (u : Under) : CloseRes × Bytes :=
   if st.error then (.readingError, []) else
-  let d := mdcDrain (u.data.length + 2) st u
+  let d := mdcDrain st u
   if !d.2.2.2 then (.readingError, d.2.2.1) else (mdcCheck H pre d.1, d.2.2.1)
 
 /-- a session: `Read`s with the given buffer sizes, then `Close`.
